@@ -14,7 +14,7 @@ Classes == UNION { {<<"set", T>> : T \in {U \in SUBSET Sigma : Cardinality(U) \i
                    {<<"nset", {c}>> : c \in Sigma},
                    {<<"range", p[1], p[2]>> : p \in {q \in Sigma \X Sigma : q[1] <= q[2]}}, {<<"any">>} }
 Zero == {<<"bol">>, <<"eol">>, <<"eps">>}
-Reps == {<<0, 0>>, <<0, 1>>, <<0, 2>>, <<1, 1>>, <<1, 2>>, <<1, 3>>, <<2, 2>>, <<2, 3>>, <<3, 3>>, <<0, -1>>, <<1, -1>>, <<2, -1>>}
+Reps == {<<0, 1>>, <<0, 2>>, <<1, 1>>, <<1, 2>>, <<1, 3>>, <<2, 2>>, <<2, 3>>, <<3, 3>>, <<0, -1>>, <<1, -1>>, <<2, -1>>}
 MaxD(q) == IF Len(q) = 0 THEN 0 ELSE
            LET f[k \in 1..Len(q)] == IF k = 1 THEN Depth(q[1]) ELSE (IF Depth(q[k]) > f[k - 1] THEN Depth(q[k]) ELSE f[k - 1]) IN f[Len(q)]
 \* folding the stack with seq adds Len-1 levels
@@ -30,8 +30,8 @@ Push == /\ Len(stk) < 3
         /\ Fits(stk') /\ UNCHANGED subj
 Wrap == /\ Len(stk) >= 1
         /\ \/ \E t \in {"star", "plus", "opt", "sub", "sub", "nocase"} : stk' = Append(Pop1, <<t, Top>>)
-           \/ \E mn \in Reps : stk' = Append(Pop1, <<"rep", mn[1], mn[2], Top>>)
-        /\ Fits(stk') /\ WF(stk'[Len(stk')]) /\ UNCHANGED subj
+           \/ \E mn \in (IF Pick(20) = 1 THEN {<<0, 0>>} ELSE Reps) : stk' = Append(Pop1, <<"rep", mn[1], mn[2], Top>>)
+        /\ Fits(stk') /\ WF(stk'[Len(stk')]) /\ Tractable(stk'[Len(stk')]) /\ UNCHANGED subj
 Combine == /\ Len(stk) >= 2
            /\ \E t \in {"seq", "seq", "or"} : stk' = Append(Pop2, <<t, stk[Len(stk) - 1], Top>>)
            /\ UNCHANGED subj
@@ -49,6 +49,6 @@ Spec == Init /\ [][Next]_vars
 
 Final == LET f[k \in 1..Len(stk)] == IF k = 1 THEN stk[1] ELSE <<"seq", f[k - 1], stk[k]>> IN f[Len(stk)]
 Dump == (TLCGet("level") = D /\ Len(stk) >= 1) =>
-           /\ Assert(WF(Final) /\ Depth(Final) <= MaxDepth /\ Len(subj) <= MaxLen, "generator emitted a case outside the domain")
+           /\ Assert(WF(Final) /\ Tractable(Final) /\ Depth(Final) <= MaxDepth /\ Len(subj) <= MaxLen, "generator emitted a case outside the domain")
            /\ PrintT(<<"CASE", ToJson(<<Final, subj>>)>>)
 =========================================================================
